@@ -333,6 +333,9 @@ func (c *Ctx) ClassifyErrCall(call *ssa.Call) *ErrSite {
 			worst, detail = kind, d
 		}
 	}
+	if a.escapes && worst == ErrConverted {
+		worst, detail = ErrEscapes, "error is stored for later retrieval"
+	}
 	site.Kind, site.Detail = worst, detail
 	return site
 }
